@@ -150,6 +150,11 @@ impl<O: Operator<Out = E>> Operator for StateReader<O> {
                 // an interleaving point between receiving the element and reading the state
                 simrt::yield_now();
                 let st = *self.state.get();
+                if self.inner_path.is_some() {
+                    simrt::rt::count("outer_state_read_in_nested_body");
+                } else {
+                    simrt::rt::count("state_read_in_body");
+                }
                 let obs = StateObs {
                     loop_id: self.loop_id,
                     loop_path: self.loop_path.clone(),
@@ -838,6 +843,28 @@ impl<'a> Builder<'a> {
             // reuse the generic step builder one step at a time so that state readers can be
             // interleaved
             self.build_steps_from(std::slice::from_ref(st), local, outer, &p[..p.len() - 1], si);
+            if !spec.use_state {
+                // body of a loop nested in a loop whose body reads its state: read that outer
+                // state after every inner step as well (also behind the inner repartitions)
+                if let (Some((outer_state, outer_path)), Some(last)) = (self.state_stack.last().cloned(), local.last_mut()) {
+                    if let Some(s) = last.take() {
+                        let site = self.nsites;
+                        self.nsites += 1;
+                        let inner_path = Some(path.to_vec());
+                        *last = Some(boxed(s.add_operator(|p| StateReader {
+                            prev: p,
+                            state: outer_state,
+                            loop_id,
+                            loop_path: outer_path,
+                            inner_path,
+                            site,
+                            coord: (0, 0, 0),
+                            fold_in: false,
+                            round: 0,
+                        })));
+                    }
+                }
+            }
             if spec.use_state {
                 // read the state right after this step on the stream it produced (if any)
                 if let Some(last) = local.last_mut() {
